@@ -540,7 +540,7 @@ def run(ctx):
 
     # ---------------------------------------------------------------- R11
     r = ctx.rule("C07-R11", "TABLE", "conversion returns a value of the declared type: every return of a converter is None (nullable arm), a literal of the type, "
-                 "the builtin conversion's result, or the input itself under an isinstance test for exactly that type (bool is not int: 1 is not True)", reference=4)
+                 "the builtin conversion's result, or the input itself under an isinstance test for exactly that type (bool is not int: 1 is not True)", reference=9)
     smod_ = p.modules["clikit.utils.string"]
     TYPES = {"parse_boolean": "bool", "parse_int": "int", "parse_float": "float"}
     def _judge_returns(top, fn, tname, bound, depth=0):
